@@ -241,6 +241,12 @@ func propSpecs() map[string]*PropSpec {
 				}
 			}
 		}
+		if !full {
+			// the same program on both threads exercises every lazily initialised path twice at once
+			for i := int64(0); i < 8; i++ {
+				r = append(r, RunSpec{Harness: "H_C14par", Args: []int64{i, i, 0}, Budget: 4000000})
+			}
+		}
 		for _, p := range pairs {
 			r = append(r, RunSpec{Harness: "H_C14seq", Args: []int64{p[0], p[1]}, Budget: 4000000})
 			r = append(r, RunSpec{Harness: "H_C14par", Args: []int64{p[0], p[1], 0}, Budget: 4000000})
